@@ -190,7 +190,7 @@ Definition trigger (sh : shared) (s : nat) (e : event) : shared * option err :=
 Inductive pkind :=
 | PClosed      (* preventClosed: Kill/Stop/AppendError on a scope whose Close has started *)
 | PDouble      (* preventDoubleClosed *)
-| PNegWG       (* sync: negative WaitGroup counter *)
+| PNegWG       (* negative task counter (refused decrement) *)
 | PChan        (* close of closed channel *)
 | PNil.        (* nil event scope: On after the scope has been closed *)
 
